@@ -111,6 +111,29 @@ type Store struct {
 	blockSlots  map[local.Block]int
 	lastPutSlot int
 	lastPutOff  int64
+	// ordering oracle: has the device's Sync succeeded since the last NotifySyncStarting?
+	syncOK         bool
+	syncFailed     int    // failed Sync calls since the last NotifySyncStarting
+	orderViolation string // set by NotifySyncCompleted when it was not preceded by a successful Sync
+}
+
+// SyncSucceeded is called by the data syncer when the device's Sync() returned nil.
+func (s *Store) SyncSucceeded(ok bool) {
+	s.srcMu.Lock()
+	if ok {
+		s.syncOK = true
+	} else {
+		s.syncFailed++
+	}
+	s.srcMu.Unlock()
+}
+
+// OrderViolation reports a NotifySyncCompleted that was not preceded by a successful device Sync
+// issued after the matching NotifySyncStarting ("" = none so far).
+func (s *Store) OrderViolation() string {
+	s.srcMu.Lock()
+	defer s.srcMu.Unlock()
+	return s.orderViolation
 }
 
 // who tells which goroutine of the store is executing.
@@ -207,9 +230,20 @@ func (x source) GetBlockPutWakeup() <-chan struct{} {
 
 func (x source) NotifySyncStarting(final bool) {
 	x.s.BL.NotifySyncStarting(final)
+	x.s.srcMu.Lock()
+	x.s.syncOK, x.s.syncFailed = false, 0
+	x.s.srcMu.Unlock()
 	x.log(fmt.Sprintf("start %v", final))
 }
-func (x source) NotifySyncCompleted() { x.s.BL.NotifySyncCompleted(); x.log("completed") }
+func (x source) NotifySyncCompleted() {
+	x.s.srcMu.Lock()
+	if !x.s.syncOK && x.s.orderViolation == "" && !x.s.dead.Load() {
+		x.s.orderViolation = fmt.Sprintf("NotifySyncCompleted without a successful Sync() of the data device since NotifySyncStarting (%d failed Sync calls)", x.s.syncFailed)
+	}
+	x.s.srcMu.Unlock()
+	x.s.BL.NotifySyncCompleted()
+	x.log("completed")
+}
 func (x source) GetPersistentState() (uint32, []*pb.BlockState) {
 	o, b := x.s.BL.GetPersistentState()
 	x.log("getstate")
